@@ -208,6 +208,10 @@ def _run_exact(case, ctx):
         ub = {}
         for k_, v_ in P.items():
             lo_, hi_ = (v_ * r.uniform(0.4, 0.8), v_ * r.uniform(1.25, 1.7)) if v_ > 0 else (v_ * r.uniform(1.25, 1.7), v_ * r.uniform(0.4, 0.8)) if v_ < 0 else (-1.0, 1.0)
+            if (case["seed"] % 2 or name == "Toth") and math.isfinite(dflt[k_][0]):
+                lo_ = dflt[k_][0]  # (only an upper limit of one's own: the lower one stays where the model has it)
+            if name == "Toth" and k_ == "t" and v_ < 0.9:
+                hi_ = 0.95  # (a heterogeneity exponent known to be below one: the library's default start lies above this limit)
             ub[k_] = (max(lo_, dflt[k_][0]), min(hi_, dflt[k_][1]))
         extra["param_bounds"] = ub
         ctx.count("exact_variants", "user-bounds-around-the-generating-parameters")
